@@ -1367,13 +1367,46 @@ def replay(path):
     rep = json.load(open(path))
     lines = [n.get("family_line") or n.get("tie_break_family_line") for n in rep.get("notes", []) if isinstance(n, dict)]
     lines = [l for l in lines if l]
+    bad = 0
+    # failing compiled programs (single- or multi-package): run them again, GopherJS vs native Go
+    from . import progs
+    for m in rep.get("failing_inputs", []):
+        try:
+            d = json.loads(m["op"])
+        except Exception:
+            continue
+        if "files" in d:
+            C.build_gvh("gvh_c09")
+            gopath = C.scratch("c09gopath")
+            try:
+                job = {"id": d["id"], "mod": [k for k in d["files"]["main.go"].split('"') if k.endswith("/q")][0][:-2], "files": d["files"],
+                       "variants": [d.get("variant", "plain")], "native": True, "timeout": 300}
+                p = C.run_gvh(["prog", "-j", "1"], [json.dumps(job)], name="gvh_c09", timeout=3600,
+                              extra_env={"GOPATH": gopath, "GO111MODULE": "off", "GOFLAGS": ""})
+                r = json.loads(p.stdout.split("\n")[0])
+            finally:
+                import shutil
+                shutil.rmtree(gopath, ignore_errors=True)
+        elif "source" in d:
+            r = progs.run_jobs([{"id": d["id"], "files": {"main.go": d["source"]}, "variants": [d.get("variant", "plain")], "native": True,
+                                 "timeout": 300}])[0]
+        else:
+            continue
+        v = d.get("variant", "plain")
+        js, nat = progs.observe_js(r["runs"][v]), progs.observe_native(r["runs"]["native"])
+        print("program %s: js ending %s, native ending %s" % (d["id"], js[1], nat[1]))
+        import difflib
+        for l in list(difflib.unified_diff(nat[0], js[0], "native Go", "GopherJS", lineterm="", n=0))[:40]:
+            print("  " + l)
+        bad += js != nat
     if not lines:
-        print("no failing family recorded; broken obligations:", rep.get("broken_obligations"))
-        return 1
+        if not rep.get("failing_inputs"):
+            print("no failing input recorded; broken obligations:", rep.get("broken_obligations"))
+            return 1
+        return 1 if bad else 0
     impl = C.run_node(lines)
     model = C.run_driver("C09", lines)
     spec = C.run_driver("C09", [l.replace("types fam ", "types sfam ", 1) for l in lines])
-    bad = 0
     for l, a, b, c in zip(lines, impl, model, spec):
         ops = l.split(" ", 2)[2].split(";")
         for o, x, y, z in zip(ops, a.split(";"), b.split(";"), c.split(";")):
